@@ -710,6 +710,9 @@ impl NetBackend for SimNet {
                 w.wake();
             }
             handle.event(format!("net: conn{id} open {from} -> {remote}"));
+            if (31000..32000).contains(&remote.port()) {
+                handle.probe("websocket-connection-opened");
+            }
             Ok(Box::new(c) as Box<dyn StreamBackend>)
         })
     }
